@@ -547,6 +547,27 @@ func (x *FnExec) callerEnvAt(st *State) *Env {
 		if v, ok := x.resolveLocalAny(name, st); ok {
 			return v, true
 		}
+		if name == "rangeindex" {
+			// the hidden counter of the latest range loop entered so far (the element being
+			// visited is [rangeindex + 1]); with nested loops: the innermost one started last
+			var best *ssa.Phi
+			for _, blk := range x.fn.Blocks {
+				for _, in := range blk.Instrs {
+					phi, ok := in.(*ssa.Phi)
+					if !ok {
+						break
+					}
+					if phi.Comment == "rangeindex" {
+						if _, have := x.vals[phi]; have {
+							best = phi
+						}
+					}
+				}
+			}
+			if best != nil {
+				return TVal{x.vals[best], best.Type()}, true
+			}
+		}
 		if prev != nil {
 			return prev(name)
 		}
